@@ -94,6 +94,7 @@ class Mon:
         self.ns_over: dict[str, Any] | None = None  # assign accepted although own size > limit
         self.ns_early: dict[str, Any] | None = None  # error raised although own size <= limit
         self.ns_raised = 0
+        self.copy_snap: dict[int, tuple[Any, int]] = {}  # child context -> size of the parent chain when copied
 
     # ---------------------------------------------------------------- node trace
     def pre(self, node: Any, buffer: Any) -> Frame | None:
@@ -280,8 +281,23 @@ class Mon:
         if sz > self.ns_peak:
             self.ns_peak = sz
         if L is not None and sz > L and self.ns_over is None:
-            self.ns_over = {"size": sz, "limit": L, "engine_size": ctx.get_size_of_locals(),
-                            "depth": _ctx_depth(ctx)}
+            eng = ctx.get_size_of_locals()
+            why = "check-skipped" if eng > L else "engine-undercounts"
+            if eng <= L:
+                c, hops = ctx, 0
+                while c.parent is not None and hops < 10_000:
+                    snap = self.copy_snap.get(id(c))
+                    if snap is not None and own_size(c.parent) > snap[1]:
+                        # an ancestor's namespace grew after this copy was made (block.super
+                        # renders the parent block in the outer context): the carried size is stale
+                        why = "parent-grew-after-copy"
+                        break
+                    c, hops = c.parent, hops + 1
+                else:
+                    snap = self.copy_snap.get(id(ctx))
+                    if snap is not None and getattr(ctx, "local_namespace_carry", None) != snap[1]:
+                        why = "carry-wrong-at-copy"
+            self.ns_over = {"size": sz, "limit": L, "engine_size": eng, "depth": _ctx_depth(ctx), "why": why}
 
 
 _THIS = __file__
@@ -483,6 +499,8 @@ def install() -> None:
             d = _ctx_depth(c)
             if d > m.max_copy_depth:
                 m.max_copy_depth = d
+            if m.limits.get("ns") is not None:
+                m.copy_snap[id(c)] = (c, own_size(self))
         return c
 
     from contextlib import contextmanager
